@@ -9,7 +9,7 @@ from ..model import call_many
 from ..pool import guarded, run_cases
 
 THEOREMS = ["C15_slices", "C15_start_is_line_start", "C15_header_prefix", "C15_footer_suffix", "C15_start_example",
-            "C15_slices_nonvacuous", "C15_rest_header_survives"]
+            "C15_slices_nonvacuous", "C15_rest_header_survives", "C15_tokens_set_is_the_sources"]
 
 STYLES = ("rest", "google", "numpydoc")
 HEAD_SENT = [
